@@ -36,11 +36,12 @@ HASH = Form("hash", "line", "#")
 XML_C = Form("xml", "block", "<!--", "-->", forbid=("--",), family="html")
 
 C_CODE = ["int x = 1;", "int y = x + 2;", "x++;"]
-C_DECOY = ['const char *s%d = "<block name=\\"decoy\\">";', 'const char *t%d = "</block>";']
+C_DECOY = ['const char *s%d = "<block name=\\"decoy\\">";', 'const char *t%d = "</block>";',
+           'const char *m%d = "a \\\n// <block name=\\"ml\\">";']
 
 LANGS = {
     "bash": dict(suffixes=["sh", "bash"], forms=[HASH], code=["x=1", "echo hi", "y=$((x + 1))"],
-                 decoys=["s%d='<block name=\"decoy\">'", 'echo "</block>" # %d']),
+                 decoys=["s%d='<block name=\"decoy\">'", 'echo "</block>" # %d', 'cat <<\'EOF%d\'\n# <block name="ml">\nEOF%d']),
     "c": dict(suffixes=["c"], forms=[C_LINE, C_BLOCK, C_BLOCK_STAR, C_DOC_BLOCK], code=C_CODE, decoys=C_DECOY),
     "cpp": dict(suffixes=["cc", "cpp", "h"], forms=[C_LINE, C_BLOCK, C_BLOCK_STAR, C_DOC_BLOCK, Form("doc-line", "line", "///"), C_BLOCK_2STAR],
                 code=C_CODE,
@@ -48,29 +49,29 @@ LANGS = {
                                   'const char *q%d = R"(// <block name="rawline">)";']),
     "c_sharp": dict(suffixes=["cs"], forms=[C_LINE, Form("doc-line", "line", "///"), C_BLOCK, C_BLOCK_STAR, C_DOC_BLOCK],
                     code=["int x = 1;", "var y = x + 2;"],
-                    decoys=['string s%d = "<block name=decoy>";', 'string t%d = "</block>";']),
+                    decoys=['string s%d = "<block name=decoy>";', 'string t%d = "</block>";', 'string m%d = @"\n// <block name=ml>\n";']),
     "css": dict(suffixes=["css"], forms=[C_BLOCK, C_BLOCK_STAR, C_DOC_BLOCK], code=["a { color: red; }", "p { margin: 0; }"],
                 decoys=['a::before { content: "<block name=decoy%d>"; }', 'a::after { content: "</block>%d"; }']),
     "go": dict(suffixes=["go"], forms=[C_LINE, C_BLOCK, C_BLOCK_STAR, C_DOC_BLOCK], prologue=["package main", ""],
                code=["var x = 1", "var y = x + 2"],
-               decoys=['var s%d = "<block name=decoy>"', "var t%d = `</block>`"]),
+               decoys=['var s%d = "<block name=decoy>"', "var t%d = `</block>`", 'var m%d = `\n// <block name="ml">\n`']),
     "gomod": dict(suffixes=["go.mod", "go.sum", "go.work"], forms=[C_LINE], code=["module example.com/m", "go 1.22"],
                   decoys=[]),
     "html": dict(suffixes=["html", "htm"], forms=[XML_C], code=["<p>text</p>", "<div><span>x</span></div>"],
-                 decoys=['<block name="decoy%d"></block>', '<p title="<block name=decoy%d>">x</p>']),
+                 decoys=['<block name="decoy%d"></block>', '<p title="<block name=decoy%d>">x</p>', '<script>\n// <block name="ml%d">\n/* </block> */\n</script>', '<style>\n/* <block name="css%d"> */\n</style>']),
     "java": dict(suffixes=["java"], forms=[C_LINE, C_BLOCK, C_BLOCK_STAR, C_DOC_BLOCK, C_BLOCK_2STAR],
                  code=["int x = 1;", "int y = x + 2;"],
                  decoys=['String s%d = "<block name=decoy>";', 'String t%d = "</block>";']),
     "javascript": dict(suffixes=["js", "jsx"], forms=[C_LINE, C_BLOCK, C_BLOCK_STAR, C_DOC_BLOCK],
                        code=["let x = 1;", "const y = x + 2;"],
-                       decoys=['const s%d = "<block name=decoy>";', "const t%d = `</block>`;", "const u%d = '<block>';let w%d='</block>';"]),
+                       decoys=['const s%d = "<block name=decoy>";', "const t%d = `</block>`;", "const u%d = '<block>';let w%d='</block>';", 'const m%d = `\n// <block name="ml">\n/* </block> */\n`;']),
     # Kotlin: no code after a block comment on the same line in generated files. tree-sitter-kotlin-ng
     # loses every later comment after `decl NEWLINE /* c */ code` (known finding C03/kotlin-inline,
     # reproduced by a dedicated witness job instead of polluting the random workload).
     "kotlin": dict(suffixes=["kt", "kts"],
                    forms=[C_LINE, _c_block(trailing_code=False), _c_block("block-star", "/*", cont=" * ", trailing_code=False)],
                    code=["val x = 1", "val y = x + 2"],
-                   decoys=['val s%d = "<block name=decoy>"', 'val t%d = "</block>"']),
+                   decoys=['val s%d = "<block name=decoy>"', 'val t%d = "</block>"', 'val m%d = """\n// <block name="ml">\n"""']),
     "makefile": dict(suffixes=["Makefile", "makefile", "mk"], forms=[Form("hash", "line", "#", col0=True)],
                      code=["X = 1", "Y := $(X)", "all:", "\techo hi"], decoys=[], indent=False),
     "markdown": dict(suffixes=["md", "markdown"],
@@ -82,38 +83,38 @@ LANGS = {
                      indent=False),
     "php": dict(suffixes=["php", "phtml"], forms=[C_LINE, HASH, C_BLOCK, C_BLOCK_STAR, C_DOC_BLOCK], prologue=["<?php"],
                 code=["$x = 1;", "$y = $x + 2;"],
-                decoys=['$s%d = "<block name=decoy>";', "$t%d = '</block>';"]),
+                decoys=['$s%d = "<block name=decoy>";', "$t%d = '</block>';", '$m%d = <<<\'EOT\'\n// <block name="ml">\n# </block>\nEOT;']),
     "python": dict(suffixes=["py", "pyi"], forms=[HASH], code=["x = 1", "y = x + 2"], indent=False,
-                   decoys=['s%d = "<block name=decoy>"', "t%d = '</block>'", '"""<block name=doc%d>"""']),
+                   decoys=['s%d = "<block name=decoy>"', "t%d = '</block>'", '"""<block name=doc%d>"""', 'd%d = """\n# <block name="ml">\n<block name="ml2">\n"""']),
     "ruby": dict(suffixes=["rb"], forms=[HASH], code=["x = 1", "y = x + 2"],
-                 decoys=['s%d = "<block name=decoy>"', "t%d = '</block>'"]),
+                 decoys=['s%d = "<block name=decoy>"', "t%d = '</block>'", 'm%d = <<~EOS\n  # <block name="ml">\nEOS']),
     "rust": dict(suffixes=["rs"],
                  forms=[C_LINE, Form("doc-line", "line", "///", eats_newline=True), C_BLOCK, C_BLOCK_STAR, C_DOC_BLOCK,
                         Form("inner-doc-line", "line", "//!", eats_newline=True), _c_block("inner-doc-block", "/*!", cont=" * "),
                         # block comments nest in Rust: the tag sits after an inner, already closed comment
                         _c_block("nested-block", "/* /* inner */")],
                  code=["let x = 1;", "let y = x + 2;"],
-                 decoys=['let s%d = "<block name=decoy>";', 'let t%d = r#"</block>"#;']),
+                 decoys=['let s%d = "<block name=decoy>";', 'let t%d = r#"</block>"#;', 'let m%d = r#"\n// <block name="ml">\n/* </block> */\n"#;']),
     "sql": dict(suffixes=["sql"], forms=[Form("dash", "line", "--"), C_BLOCK, C_BLOCK_STAR, C_DOC_BLOCK],
                 code=["SELECT 1;", "SELECT a FROM t;"],
-                decoys=["SELECT '<block name=decoy%d>';", "SELECT '</block>' AS c%d;"]),
+                decoys=["SELECT '<block name=decoy%d>';", "SELECT '</block>' AS c%d;", 'SELECT \'\n-- <block name="ml%d">\n\';']),
     "swift": dict(suffixes=["swift"], forms=[C_LINE, C_BLOCK, C_BLOCK_STAR, Form("doc-line", "line", "///"), C_DOC_BLOCK,
                                              _c_block("nested-block", "/* /* inner */")],
                   code=["let x = 1", "var y = x + 2"],
                   decoys=['let s%d = "<block name=decoy>"', 'let t%d = "</block>"']),
     "toml": dict(suffixes=["toml"], forms=[HASH], code=["x = 1", 'y = "two"'],
-                 decoys=['s%d = "<block name=decoy>"', "t%d = '</block>'"]),
+                 decoys=['s%d = "<block name=decoy>"', "t%d = '</block>'", 'm%d = """\n# <block name="ml">\n"""']),
     "typescript": dict(suffixes=["ts", "d.ts"], forms=[C_LINE, C_BLOCK, C_BLOCK_STAR, C_DOC_BLOCK, Form("triple-slash", "line", "///")],
                        code=["let x: number = 1;", "const y = x + 2;"],
-                       decoys=['const s%d = "<block name=decoy>";', "const t%d = `</block>`;"]),
+                       decoys=['const s%d = "<block name=decoy>";', "const t%d = `</block>`;", 'const m%d = `\n// <block name="ml">\n`;']),
     "tsx": dict(suffixes=["tsx"], forms=[C_LINE, C_BLOCK, C_BLOCK_STAR],
                 code=["let x: number = 1;", "const y = x + 2;"],
-                decoys=['const s%d = "<block name=decoy>";', "const t%d = `</block>`;"]),
+                decoys=['const s%d = "<block name=decoy>";', "const t%d = `</block>`;", 'const m%d = `\n// <block name="ml">\n`;']),
     "xml": dict(suffixes=["xml"], forms=[XML_C], prologue=["<root>"], epilogue=["</root>"],
                 code=["<item>text</item>", "<a><b>x</b></a>"],
-                decoys=['<block name="decoy%d"></block>', "<c%d><![CDATA[<block name=x> </block>]]></c%d>"]),
+                decoys=['<block name="decoy%d"></block>', "<c%d><![CDATA[<block name=x> </block>]]></c%d>", '<d%d><![CDATA[\n<!-- <block name="ml"> -->\n]]></d%d>']),
     "yaml": dict(suffixes=["yaml", "yml"], forms=[HASH], code=["x: 1", "y: two"], indent=False,
-                 decoys=['s%d: "<block name=decoy>"', "t%d: '</block>'"]),
+                 decoys=['s%d: "<block name=decoy>"', "t%d: '</block>'", 'm%d: |\n  # <block name="ml">\n  # </block> x']),
 }
 
 for _name, _l in LANGS.items():
